@@ -251,7 +251,13 @@ func TestHead(t *testing.T) {
 					pl2 := pl
 					peers[i] = newSpeer(hosts[i+1], true, func(reqLog) plan { return pl2 })
 				}
-				ex := newExchange(t, hosts[0], trusted, 0)
+				exTrusted := trusted
+				if mbt.Bool(in, "fewTrusted") {
+					// replay-only dimension: only the first peer is configured as trusted; a request with a trusted head asks
+					// the tracked peers (all n connected ones) all the same, and the quorum is one of those asked
+					exTrusted = trusted[:1]
+				}
+				ex := newExchange(t, hosts[0], exTrusted, 0)
 				time.Sleep(time.Second)
 				synctest.Wait()
 				if mbt.Bool(in, "fallback") {
